@@ -16,7 +16,7 @@ use std::time::SystemTime;
 use veryl_analyzer::fragment_cache::{self, Fragment, FragmentWatermark};
 use veryl_analyzer::{Analyzer, CachedDiagnostic, scope, symbol_table, type_dag};
 use veryl_cache::Store;
-use veryl_metadata::Metadata;
+use veryl_metadata::{Metadata, Target};
 use veryl_parser::resource_table;
 use veryl_parser::resource_table::StrId;
 use veryl_path::PathSet;
@@ -139,6 +139,13 @@ impl Incremental {
     /// Checked only when emitting and on a key-matched store, so
     /// `generated_files` is always from the same build environment.
     fn dst_is_stale(metadata: &Metadata, path: &PathSet) -> bool {
+        // A bundle is assembled from every file's freshly staged output, so
+        // each file must be emitted again; `path.dst` is only a staging name
+        // there, and a leftover file of that name (from an earlier
+        // directory-target build) must not count as an up-to-date output.
+        if matches!(metadata.build.target, Target::Bundle { .. }) {
+            return true;
+        }
         let Some(generated) = metadata.build_info.generated_files.get(&path.dst) else {
             return true;
         };
